@@ -12,6 +12,8 @@ package commands
 //@ property C12
 //@ pkginv BadVersion != nil && BadLen != nil && BadIp != nil && BadCommand != nil && BadCodec != nil && BadFrag != nil && BadUser != nil && BadConn != nil && BadServerFull != nil   :sentinels_defined
 //@ pkginv forall k :: 0 <= k && k < len(BadErrors) ==> BadErrors[k] != nil   :error_table_filled
+//@ property C12, C13
+//@ pkginv BadIp != BadConn && BadIp != BadUser && BadConn != BadUser && BadFrag != BadIp && BadFrag != BadConn && BadFrag != BadUser   :sentinels_distinct
 
 // ---- command recognition: must be safe for every byte string, including the empty one
 //@ func (c Command) IsOfType
